@@ -364,10 +364,11 @@ def inproc_stream_consts(req, resp, ns, nr, nh, hdr=2, trl=1, statuses="{0, 1}",
 
 
 def http_stream_consts(req, resp, ns, nr, nh, hdr=1, trl=1, statuses="{0, 1}", closers='{"cs", "cs2"}', cancel=1,
-                       kinds='{"cancel", "deadline"}'):
+                       kinds='{"cancel", "deadline"}', overrun=0, drainfirst=False):
     return {"ReqStreamC": bgen.tla_bool(req), "RespStreamC": bgen.tla_bool(resp), "NS": ns, "NR": nr,
             "NH": nh, "MaxCancel": cancel, "CancelKinds": kinds, "MaxHdr": hdr, "MaxTrl": trl,
-            "Statuses": statuses, "Closers": closers, "Known <-": "KnownOpen"}
+            "Statuses": statuses, "Closers": closers, "Known <-": "KnownOpen", "OverrunN": overrun,
+            "DrainFirst": bgen.tla_bool(drainfirst)}
 
 
 def mc_files():
@@ -580,7 +581,9 @@ def conf_consts(flags):
 def http_conf_consts(flags):
     return {"ReqStreamC": bgen.tla_bool(flags[0]), "RespStreamC": bgen.tla_bool(flags[1]), "NS": 60, "NR": 60, "NH": 60,
             "MaxCancel": 1, "CancelKinds": '{"cancel", "deadline"}', "MaxHdr": 20, "MaxTrl": 20,
-            "Statuses": "{0, 1, 2}", "Closers": '{"cs", "cs2"}', "Known": "{}"}
+            "Statuses": "{0, 1, 2}", "Closers": '{"cs", "cs2"}', "Known": "{}",
+            # (recorded runs may come from a server that gave up waiting for the end of a long request)
+            "OverrunN": 2, "DrainFirst": "FALSE"}
 
 
 def unary_conf_consts(flags):
@@ -719,7 +722,33 @@ def check_C04(ctx):
 
 
 def check_C05(ctx):
-    family_a(ctx, {"extra": [("early", 90), ("stall", 45), ("card", 90)]})
+    family_a(ctx, {"extra": [("early", 90), ("stall", 45), ("card", 90), ("overrun", 36)]})
+    # the net/http environment in which a reply gets out before the request has
+    # ended (more than 256 KiB unread: OverrunN): HttpStream exhaustively, and the
+    # same with the reader goroutine as it was before the repair of KF-23
+    # (DrainFirst) -- that one must violate C05_NoStuck, or the check is vacuous
+    hb = (2, 1, 2) if ctx.quick else (2, 2, 2)
+    jobs = []
+    for (rq, rs) in STREAM_KINDS:
+        kind = bgen.kind_of(rq, rs)
+        for df in (False, True):
+            jobs.append(dict(module="MCHttpStream", view="ViewNoEv", name="L1-http-overrun%s-%s" % ("-drainfirst" if df else "", kind),
+                             consts=http_stream_consts(rq, rs, *hb, closers='{"cs"}', kinds='{"cancel"}', overrun=2, drainfirst=df),
+                             invariants=["TypeOK", "Refines", "NoPanic", "C05_NoStuck"], guard=df))
+    res = ctx.tlc_many(jobs, timeout=900 if ctx.quick else 3000)
+    for j, r in zip(jobs, res):
+        if r["timed_out"]:
+            raise vlib.Infra("%s timed out" % j["name"])
+        if j["guard"]:
+            if "C05_NoStuck" not in r["violated"]:
+                raise vlib.Infra("%s: the pre-repair reader should get stuck (vacuity guard): %s" % (j["name"], r["violated"]))
+        elif r["violated"]:
+            # a counterexample of the model is a lead, never a verdict
+            raise vlib.Infra("%s violates %s: inspect the model\n%s" % (j["name"], r["violated"], r["stdout"][-3000:]))
+    ctx.rules.append("TLC, exhaustive: HttpStream with OverrunN = 2 (the server answers before the end of a long request), %s, all "
+                     "three stream kinds: Refines, NoPanic, C05_NoStuck (which here also covers 'the final frame has left the "
+                     "server'); with DrainFirst (the reader as before the repair of KF-23) C05_NoStuck is violated, as it must be"
+                     % (hb,))
     if not ctx.quick:
         # the liveness form of C05 (temporal property under weak fairness of the
         # library's internal steps; no VIEW, no state constraint): once the
@@ -913,7 +942,10 @@ def check_C16(ctx):
                  "interceptor behaviour x decoration stacks of depth 0..2 over {nil, pass, short-circuit, fail, rewrite} x other-kind "
                  "interceptor present x {InterceptServer, WithInterceptor}; the event word written by instrumented interceptors and "
                  "handlers, the result tokens, the info arguments and a before/after snapshot of the descriptor are judged",
-                 expr="ServerCases", sig_keys=("fam", "carrier", "kind", "via", "t"))
+                 expr="ServerCases \\cup ReuseCases", sig_keys=("fam", "carrier", "kind", "via", "t"))
+    ctx.rules.append("Interceptors!ReuseCases: the same decorated description dispatched a second time by a carrier with "
+                     "another transport-level interceptor (registry entry called with another interceptor argument; the "
+                     "description registered with a second in-process channel): the second call's word and result")
 
 
 def check_C17(ctx):
@@ -986,7 +1018,11 @@ def check_C19(ctx):
                  "protoparse, its output parsed with go/parser and the path literal, call shape, Streams[i] index and "
                  "description symbol of every client method extracted; plus byte-exact regeneration of the checked-in stubs"
                  % (n1, n2, n1, n2),
-                 expr="Cases(%d, %d)" % (n1, n2), extra_cases=regen, sig_keys=("fam", "legacynames", "style", "pkg"))
+                 expr="Cases(%d, %d) \\cup MultiCases(2, 1)" % (n1, n2), extra_cases=regen,
+                 sig_keys=("fam", "legacynames", "style", "pkg"))
+    ctx.rules.append("StubGen!MultiCases(2, 1): the request names further files to generate (one without services before / "
+                     "after the file under test, one with a service of its own before it): same stubs for the file under "
+                     "test, one output file per file with services")
     ctx.assumptions += ["go/parser accepting the output is what 'valid Go' means here (no type check against generated pb.go)",
                         "descriptors come from protoparse instead of protoc"]
 
